@@ -38,7 +38,7 @@ KIND_OF = {"query": "QUERY", "header": "HEADERS", "cookie": "COOKIES", "path": "
 def biased_plan(draw):
     """Shapes the statement names explicitly."""
     dialect = draw(st.sampled_from(["3.0", "3.0", "3.1", "2.0"]))
-    shape = draw(st.sampled_from(["no-inputs", "empty-body", "string-header", "string-path", "string-cookie", "ap-only-body", "enum-param", "bounded-param", "form-body", "exclusive-31", "string-header+int-cookie", "two-media-types", "string-path+int-query", "mixed-negatability-bodies", "mixed-negatability-bodies"]))
+    shape = draw(st.sampled_from(["no-inputs", "empty-body", "string-header", "string-path", "string-cookie", "ap-only-body", "enum-param", "bounded-param", "form-body", "exclusive-31", "string-header+int-cookie", "two-media-types", "string-path+int-query", "mixed-negatability-bodies", "mixed-negatability-bodies", "string-path+int-path", "string-path+int-path"]))
     plan = {"dialect": dialect, "method": "post", "path": "/t", "params": [], "bodies": [], "body_required": True, "schemas": {}, "security": None, "shape": shape}
 
     def param(name, loc, schema, witness, required=True):
@@ -95,6 +95,12 @@ def biased_plan(draw):
         if draw(st.booleans()):
             bodies.reverse()
         plan["bodies"] = bodies
+    elif shape == "string-path+int-path":
+        # two path parameters: one cannot be violated (any string is a string), the other clearly can
+        plan["params"] = [param("org", "path", {"type": "string"}, "a"), param("id", "path", {"type": "integer"}, 1)]
+        if draw(st.booleans()):
+            plan["params"].reverse()
+        plan["path"] = draw(st.sampled_from(["/t/{org}/{id}", "/orgs/{org}/items/{id}", "/{id}/{org}"]))
     elif shape == "string-path+int-query":
         plan["params"] = [param("id", "path", {"type": "string"}, "a"), param("q", "query", {"type": "integer"}, 1)]
         plan["path"] = "/t/{id}"
